@@ -26,10 +26,14 @@ RULE = ("cases = (i) individual-level operations executed on real individuals fr
 
 def run(ctx):
     q = ctx.quick
-    memlib.unit(ctx, ["new", "new_unevaluated", "clone", "solution_mut", "solution_mut_peek", "as_solutions_mut",
+    memlib.unit(ctx, ["new", "new_unevaluated", "clone", "clone_from", "solution_mut", "solution_mut_peek", "as_solutions_mut",
                       "round_trip", "evaluate_with", "set_objective", "evaluate"])
     runlib.run_templates(ctx, ["C05"], seeds=[ctx.seed, ctx.seed + 1] if q else list(range(ctx.seed, ctx.seed + 12)),
                          iters=[3] if q else [1, 8, 30])
+    # every shipped variation component on evaluated parents (odd / even parent counts, crossover probabilities,
+    # insert-single / insert-both), observed after each component
+    runlib.run_templates(ctx, ["C05"], seeds=[ctx.seed, ctx.seed + 1] if q else list(range(ctx.seed, ctx.seed + 10)),
+                         iters=[3] if q else [2, 9], name="components", components=True)
     return ctx.finish(RULE)
 
 
